@@ -37,6 +37,8 @@ Units ==
            \* 1  0  -  .  e  E  +  true  null  "c"  !  @
       [] UnitSet = "strs" -> {<<97>>, <<92>>, <<39>>, <<34>>, <<117>>, <<100, 56, 51, 100>>, <<100, 101, 48, 48>>, <<48, 48, 52, 49>>, <<110>>, <<47>>, <<1>>, <<233>>, <<32>>}
            \* a  \\  '  "  u  d83d  de00  0041  n  /  \x01  é   
+      [] UnitSet = "singular" -> {<<46, 97>>, <<91, 48, 93>>, <<91, 48, 44, 49, 93>>, <<91, 39, 97, 39, 44, 39, 98, 39, 93>>, <<91, 42, 93>>, <<46, 46, 97>>, <<91, 48, 58, 49, 93>>, <<91, 63, 64, 93>>, <<32>>, <<46, 42>>, <<91, 45, 49, 93>>, <<91, 39, 97, 39, 93>>}
+           \* .a  [0]  [0,1]  ['a','b']  [*]  ..a  [0:1]  [?@]     .*  [-1]  ['a']
 \* templates <<prefix, suffix>>: the text checked is prefix \o body \o suffix
 Templates ==
     CASE UnitSet = "logic" -> {<<<<36, 91, 63>>, <<93>>>>}
@@ -49,6 +51,8 @@ Templates ==
            \* $[?@== ... ]   $[? ... <1]
       [] UnitSet = "strs" -> {<<<<36, 91, 39>>, <<39, 93>>>>, <<<<36, 91, 34>>, <<34, 93>>>>, <<<<36, 91, 63, 64, 61, 61, 39>>, <<39, 93>>>>}
            \* $[' ... ']   $[" ... "]   $[?@==' ... ']
+      [] UnitSet = "singular" -> {<<<<36, 91, 63, 64>>, <<61, 61, 49, 93>>>>, <<<<36, 91, 63, 49, 60, 36>>, <<93>>>>}
+           \* $[?@ ... ==1]   $[?1<$ ... ]
 
 text == tpl[1] \o body \o tpl[2]
 Init == tpl \in Templates /\ body = <<>> /\ n = 0
